@@ -170,6 +170,107 @@ theorem desurvey_beyond (collar : Rat) (t d : List Rat) (hlen : t.length = d.len
   simp only [this]
   rw [show min (t.length - 1) ((legs t d).length - 1) = t.length - 2 by rw [hl]; omega]
 
+/-! ### continuity at stations with repeated depths -/
+
+/-- what the lookup guarantees on any table: the entries before the returned position are below `x`, the entry at it
+    (if any) is not -/
+theorem searchLeft_spec : ∀ (t : List Rat) (x : Rat),
+    searchLeft t x ≤ t.length ∧ (∀ j, j < searchLeft t x → t.getD j 0 < x)
+      ∧ (searchLeft t x < t.length → ¬ t.getD (searchLeft t x) 0 < x)
+  | [], x => by simp [searchLeft]
+  | a :: as, x => by
+    obtain ⟨h1, h2, h3⟩ := searchLeft_spec as x
+    unfold searchLeft at h1 h2 h3 ⊢
+    by_cases ha : a < x
+    · simp only [List.takeWhile_cons, ha, decide_true, ↓reduceIte, List.length_cons]
+      refine ⟨by omega, ?_, ?_⟩
+      · intro j hj
+        cases j with
+        | zero => simpa using ha
+        | succ j => simpa using h2 j (by omega)
+      · intro hl; simpa using h3 (by omega)
+    · simp only [List.takeWhile_cons, ha, decide_false, Bool.false_eq_true, ↓reduceIte, List.length_nil]
+      refine ⟨by omega, by intro j hj; omega, ?_⟩
+      intro _; simpa using ha
+
+/-- stations at the same depth are at the same position (legs of length zero do not move) -/
+theorem locs_const (collar : Rat) (t d : List Rat) (hlen : t.length = d.length) (hs : Sorted t)
+    (j : Nat) : ∀ (n : Nat), j + n < t.length → t.getD j 0 = t.getD (j + n) 0 →
+      (locs collar (legs t d)).getD j 0 = (locs collar (legs t d)).getD (j + n) 0
+  | 0, _, _ => rfl
+  | n + 1, hk, heq => by
+    have hl := legs_length t d hlen
+    have hmid : t.getD j 0 = t.getD (j + n) 0 := by
+      have h1 := hs j (j + n) (by omega) (by omega)
+      have h2 := hs (j + n) (j + n + 1) (by omega) (by omega)
+      rw [← Nat.add_assoc] at heq
+      linarith
+    have ih := locs_const collar t d hlen hs j n (by omega) hmid
+    rw [← Nat.add_assoc, locs_succ collar (legs t d) (j + n) (by rw [hl]; omega),
+      legs_len t d (j + n) hlen (by omega), ← ih]
+    rw [← Nat.add_assoc] at heq
+    rw [← heq, hmid]; ring
+
+/-- the piece of the path that a depth inside the table is computed with: the last station strictly above it in the
+    table (`t_i < x ≤ t_{i+1}`), whatever depths are repeated -/
+theorem desurvey_piece (collar : Rat) (t d : List Rat) (hlen : t.length = d.length) (hs : Sorted t)
+    (x : Rat) (h0 : t.getD 0 0 < x) (hx : x ≤ t.getD (t.length - 1) 0) :
+    ∃ i, i + 1 < t.length ∧ t.getD i 0 < x ∧ x ≤ t.getD (i + 1) 0 ∧
+      desurvey collar t d x
+        = (locs collar (legs t d)).getD i 0 + (x - t.getD i 0) * ((legs t d).getD i (0, 0)).2 := by
+  obtain ⟨h1, h2, h3⟩ := searchLeft_spec t x
+  have hne : 0 < t.length := by
+    rcases Nat.eq_zero_or_pos t.length with h | h
+    · have : t = [] := List.eq_nil_of_length_eq_zero h
+      subst this; simp at h0 hx; linarith
+    · exact h
+  have hpos : 0 < searchLeft t x := by
+    rcases Nat.eq_zero_or_pos (searchLeft t x) with h | h
+    · rw [h] at h3; exact absurd h0 (h3 hne)
+    · exact h
+  have hlt : searchLeft t x < t.length := by
+    rcases Nat.lt_or_ge (searchLeft t x) t.length with h | h
+    · exact h
+    · have := h2 (t.length - 1) (by omega); linarith
+  refine ⟨searchLeft t x - 1, by omega, h2 _ (by omega), ?_, ?_⟩
+  · have := h3 hlt
+    rw [show searchLeft t x - 1 + 1 = searchLeft t x by omega]; linarith
+  · exact desurvey_after_station collar t d hlen hs (searchLeft t x - 1) x (by omega) (h2 _ (by omega))
+      (by have := h3 hlt; rw [show searchLeft t x - 1 + 1 = searchLeft t x by omega]; linarith)
+
+/-- **Continuity at every station, repeated depths included**: the position computed for the depth of station `k` is
+    station `k`'s position, for every station below the collar depth — the piece arriving at the first station of that
+    depth ends there, and stations sharing the depth share the position. -/
+theorem desurvey_station_any (collar : Rat) (t d : List Rat) (hlen : t.length = d.length) (hs : Sorted t)
+    (k : Nat) (hk : k < t.length) (hpos : t.getD 0 0 < t.getD k 0) :
+    desurvey collar t d (t.getD k 0) = (locs collar (legs t d)).getD k 0 := by
+  obtain ⟨i, hi, hlo, hhi, hd⟩ := desurvey_piece collar t d hlen hs (t.getD k 0) hpos
+    (hs k (t.length - 1) (by omega) (by omega))
+  have hl := legs_length t d hlen
+  have hik : i + 1 ≤ k := by
+    rcases Nat.lt_or_ge i k with h | h
+    · exact h
+    · have := hs k i h (by omega); linarith
+  have heq : t.getD (i + 1) 0 = t.getD k 0 := by
+    have := hs (i + 1) k hik hk; linarith
+  rw [hd, ← heq]
+  have hstep := locs_succ collar (legs t d) i (by rw [hl]; omega)
+  rw [legs_len t d i hlen hi] at hstep
+  rw [← hstep]
+  have := locs_const collar t d hlen hs (i + 1) (k - (i + 1)) (by omega)
+    (by rw [show i + 1 + (k - (i + 1)) = k by omega]; exact heq)
+  rw [show i + 1 + (k - (i + 1)) = k by omega] at this
+  exact this
+
+/-- non-vacuity: a table with a repeated depth meets the hypotheses, and the position at the repeated depth is that
+    of the later station too -/
+example : Sorted [0, 5, 5, 10] := by
+  intro i j hij hj
+  have hj' : j < 4 := by simpa using hj
+  have : (i = 0 ∨ i = 1 ∨ i = 2 ∨ i = 3) ∧ (j = 0 ∨ j = 1 ∨ j = 2 ∨ j = 3) := by omega
+  rcases this with ⟨hi | hi | hi | hi, hj | hj | hj | hj⟩ <;> subst hi <;> subst hj <;> first | omega | decide
+example : desurvey 100 [0, 5, 5, 10] [1, 2, 3, 4] 5 = (locs 100 (legs [0, 5, 5, 10] [1, 2, 3, 4])).getD 2 0 := by decide +kernel
+
 /-! ### re-sorting by depth keeps every datum attached -/
 
 theorem invPerm_spec (σ : List Nat) (v : Nat) (hv : v ∈ σ) (h : v < σ.length) :
